@@ -88,6 +88,10 @@ def build(kind="asan"):
         # coverage survey of the machinery itself (bin/coverage): same driver, gcov instrumentation, counters accumulate in
         # $VERIF_COV across all driver processes of a run
         cc, flags, kind = "gcc", "-g -O0 --coverage -fprofile-update=atomic", kind + "-cov"
+    if what == "drv":
+        # every direct close() of the library (and the driver) goes through drv.c's __wrap_close, which counts the calls on
+        # descriptors that are not open: a descriptor released twice closes whatever another thread opened in between
+        flags += " -Wl,--wrap=close"
     hsh = src_hash(kind + flags)
     outdir = os.path.join(CACHE, hsh)
     exe = os.path.join(outdir, "drv" if what == "drv" else "econftool")
